@@ -25,7 +25,8 @@ type jDBCase struct {
 	FlushAfter []int    `json:"flush_after"`  // FlushAll after the i-th insert (0-based)
 	ReopenAt   []int    `json:"reopen_after"` // clean Close + reopen after the i-th insert
 	FinalFlush bool     `json:"final_flush"`
-	MemCap     bool     `json:"mem_cap,omitempty"` // MaxMemoryRatio configured: forced flushes are sorted
+	MemCap     bool     `json:"mem_cap,omitempty"`  // MaxMemoryRatio configured: forced flushes are sorted
+	MemTiny    bool     `json:"mem_tiny,omitempty"` // ... with a cap of a few bytes: every insert forces a flush and the sorter spills every row to its own temp file
 	Queries    []jQuery `json:"queries"`
 	NT         bool     `json:"nt"`
 }
@@ -329,10 +330,15 @@ type qResult struct {
 }
 
 func runDBCase(e *Env, c *jDBCase) error {
+	e.Running(c)
 	memRatio = 0
 	if c.MemCap {
 		memRatio = 0.95
 		e.Count("mem_cap_sorted_flushes")
+		if c.MemTiny {
+			memRatio = 1e-9
+			e.Count("mem_cap_tiny_sorter_spills")
+		}
 	}
 	defer func() { memRatio = 0 }()
 	dir := tempDir()
@@ -488,6 +494,7 @@ func genDBCase(e *Env) *jDBCase {
 		}
 		c.FinalFlush = r.Intn(2) == 0
 		c.MemCap = r.Intn(3) == 0
+		c.MemTiny = c.MemCap && r.Intn(2) == 0
 		c.Queries = []jQuery{{Mem: true}, genSubsetQuery(r, t, true)}
 		if c.FinalFlush {
 			c.Queries = append(c.Queries, jQuery{Mem: false}, genSubsetQuery(r, t, false))
